@@ -3,7 +3,15 @@ from shell import c10
 
 ID = "C10"
 LEVEL = "other"
-FUNCTIONS = []
+FUNCTIONS = ["TradingEnv.notify", "TradingEnv.step"]
 SHELL = [c10.isolation]
-LEVEL_TEXT = ("bounded shell + frame obligations (reported separately)")
+LEVEL_TEXT = ("Kernel (frames): the only location outside the environment that its reset/step path writes is the process-wide "
+              "AbstractContract.now (write log of TradingEnv.step/notify vs their `modifies`), and step writes this environment's own time "
+              "to it before anything that may resolve a futures chain (D7 fixed); notify leaves both clocks at the dispatched event's time. "
+              "Bounded shell: bit-identical traces after reset following completed/abandoned/errored episodes and on a fresh identical "
+              "environment, and under round-robin/blocked/random interleavings of two environments (spot with fees/delay/feature "
+              "history, ES chains at different clocks, with and without latency). D12 (shared default IState) is a recorded finding.")
 EXPLANATION = LEVEL_TEXT
+NOT_DEDUCTIVE = ["reinitialisation of every field by reset and the absence of ambient nondeterminism (DESIGN section 7 C10 iii/iv): the generic "
+                 "frame analysis was not built; bounded shell only", "bit identity of floating-point results (A1): shell only"]
+EXTRA_ASSUMPTIONS = ["ASSUMED contracts: TradingEnv._process_*_events, IState.__call__, TrackRecord._checkpoint/__getitem__"]
